@@ -274,157 +274,173 @@ theorem tlvLoop_hdr' {σ : Type} (app : σ → Nat → TlvV → σ) (t d s : Nat
   rw [hdr_len] at this
   exact this
 
+/-- state after an optional parameter -/
+def optSt {α σ : Type} (o : Option α) (st : σ) (f : α → σ) : σ :=
+  match o with
+  | none => st
+  | some v => f v
+
 theorem run_miux {app : ConnSt → Nat → TlvV → ConnSt}
     (happ : ∀ st x, app st 2 (.num x) = { st with miu := 128 + x })
-    (miu : Nat) (h1 : 128 ≤ miu) (h2 : miu ≤ 128 + 0x7FF) (R : Bytes) (st : ConnSt) (hst : st.miu = 128) :
+    (miu : Nat) (h1 : 128 ≤ miu) (h2 : miu ≤ 128 + 0x7FF) :
     ∃ A, (if miu ≠ 0 ∧ miu > 128 then encH 2 (miu - 128) else pure []) = .ok A ∧
-      run app (A ++ R) st = run app R { st with miu := miu } := by
+      ∀ (R : Bytes) (st : ConnSt), st.miu = 128 → run app (A ++ R) st = run app R { st with miu := miu } := by
   by_cases hm : miu > 128
   · refine ⟨[2, 2, (miu - 128) / 256, (miu - 128) % 256], ?_, ?_⟩
     · have c : miu ≠ 0 ∧ miu > 128 := by omega
       have c2 : ¬ (miu - 128 > 65535) := by omega
       rw [if_pos c]
       simp only [encH, c2, if_false, Py.pure_eq]
-    · rw [run_cons app _ R 2 2 _ st (pd_miux _ _ R) rfl, happ]
+    · intro R st hst
+      rw [run_cons app _ R 2 2 _ st (pd_miux _ _ R) rfl, happ]
       have e : 128 + ((miu - 128) / 256 * 256 + (miu - 128) % 256) % 2048 = miu := by omega
       rw [e]
   · refine ⟨[], ?_, ?_⟩
     · have c : ¬ (miu ≠ 0 ∧ miu > 128) := by omega
       simp only [c, if_false, Py.pure_eq]
-    · have : miu = 128 := by omega
+    · intro R st hst
+      have : miu = 128 := by omega
       subst this
       cases st
       simp_all
 
 theorem run_rw {app : ConnSt → Nat → TlvV → ConnSt}
     (happ : ∀ st x, app st 5 (.num x) = { st with rw := x })
-    (rw : Nat) (h1 : rw ≤ 15) (R : Bytes) (st : ConnSt) (hst : st.rw = 1) :
+    (rw : Nat) (h1 : rw ≤ 15) :
     ∃ B, (if rw ≠ 1 then encB 5 rw else pure []) = .ok B ∧
-      run app (B ++ R) st = run app R { st with rw := rw } := by
+      ∀ (R : Bytes) (st : ConnSt), st.rw = 1 → run app (B ++ R) st = run app R { st with rw := rw } := by
   by_cases hm : rw ≠ 1
   · refine ⟨[5, 1, rw], ?_, ?_⟩
     · have c2 : ¬ (rw > 255) := by omega
       rw [if_pos hm]
       simp only [encB, c2, if_false, Py.pure_eq]
-    · rw [run_cons app _ R 5 1 _ st (pd_rw _ R) rfl, happ]
+    · intro R st hst
+      rw [run_cons app _ R 5 1 _ st (pd_rw _ R) rfl, happ]
       have e : rw % 16 = rw := by omega
       rw [e]
   · refine ⟨[], ?_, ?_⟩
     · rw [if_neg hm]; rfl
-    · have : rw = 1 := by omega
+    · intro R st hst
+      have : rw = 1 := by omega
       subst this
       cases st
       simp_all
 
 /-- `if v: data += Parameter.encode(T, v)` for an octet string parameter of type 6, 10 or 11 -/
 theorem run_truthy {σ : Type} (app : σ → Nat → TlvV → σ) (t : Nat) (ht : t = 6 ∨ t = 10 ∨ t = 11)
-    (o : Option Bytes) (ho : ∀ v, o = some v → v ≠ [] ∧ v.length ≤ 255) (R : Bytes) (st : σ) :
+    (o : Option Bytes) (ho : ∀ v, o = some v → v ≠ [] ∧ v.length ≤ 255) :
     ∃ C, truthyTlv t o = .ok C ∧
-      run app (C ++ R) st = run app R (match o with | none => st | some v => app st t (.raw v)) := by
+      ∀ (R : Bytes) (st : σ), run app (C ++ R) st = run app R (optSt o st (fun v => app st t (.raw v))) := by
   cases o with
-  | none => exact ⟨[], rfl, rfl⟩
+  | none => exact ⟨[], rfl, fun _ _ => rfl⟩
   | some v =>
     obtain ⟨hne, hl⟩ := ho v rfl
     refine ⟨[t, v.length] ++ v, ?_, ?_⟩
     · have c1 : v.isEmpty = false := by cases v <;> simp_all
       have c2 : ¬ (v.length > 255) := by omega
       simp only [truthyTlv, c1, encS, c2, if_false, Py.pure_eq, Bool.false_eq_true]
-    · have := run_cons app ([t, v.length] ++ v) R t v.length (.raw v) st
+    · intro R st
+      exact run_cons app ([t, v.length] ++ v) R t v.length (.raw v) st
         (by simpa using pd_raw t v R ht) (by simp; omega)
-      exact this
 
 theorem run_optB {σ : Type} (app : σ → Nat → TlvV → σ) (t : Nat) (ht : t = 1 ∨ t = 4)
-    (o : Option Nat) (ho : ∀ v, o = some v → v ≤ 255) (R : Bytes) (st : σ) :
+    (o : Option Nat) (ho : ∀ v, o = some v → v ≤ 255) :
     ∃ A, optTlv (encB t) o = .ok A ∧
-      run app (A ++ R) st = run app R (match o with | none => st | some v => app st t (.num v)) := by
+      ∀ (R : Bytes) (st : σ), run app (A ++ R) st = run app R (optSt o st (fun v => app st t (.num v))) := by
   cases o with
-  | none => exact ⟨[], rfl, rfl⟩
+  | none => exact ⟨[], rfl, fun _ _ => rfl⟩
   | some v =>
     refine ⟨[t, 1, v], ?_, ?_⟩
     · have c2 : ¬ (v > 255) := by have := ho v rfl; omega
       simp only [optTlv, encB, c2, if_false, Py.pure_eq]
-    · exact run_cons app [t, 1, v] R t 1 (.num v) st (pd_B t v R ht) rfl
+    · intro R st
+      exact run_cons app [t, 1, v] R t 1 (.num v) st (pd_B t v R ht) rfl
 
 theorem run_optOpt {σ : Type} (app : σ → Nat → TlvV → σ)
-    (o : Option Nat) (ho : ∀ v, o = some v → v ≤ 7) (R : Bytes) (st : σ) :
+    (o : Option Nat) (ho : ∀ v, o = some v → v ≤ 7) :
     ∃ A, optTlv (encB 7) o = .ok A ∧
-      run app (A ++ R) st = run app R (match o with | none => st | some v => app st 7 (.num v)) := by
+      ∀ (R : Bytes) (st : σ), run app (A ++ R) st = run app R (optSt o st (fun v => app st 7 (.num v))) := by
   cases o with
-  | none => exact ⟨[], rfl, rfl⟩
+  | none => exact ⟨[], rfl, fun _ _ => rfl⟩
   | some v =>
     have hv := ho v rfl
     refine ⟨[7, 1, v], ?_, ?_⟩
     · have c2 : ¬ (v > 255) := by omega
       simp only [optTlv, encB, c2, if_false, Py.pure_eq]
-    · have := run_cons app [7, 1, v] R 7 1 (.num (v % 8)) st (pd_opt v R) rfl
+    · intro R st
+      have := run_cons app [7, 1, v] R 7 1 (.num (v % 8)) st (pd_opt v R) rfl
       rw [this]
       have : v % 8 = v := by omega
-      simp only [this]
+      simp only [this, optSt]
 
 theorem run_optMiux {σ : Type} (app : σ → Nat → TlvV → σ)
-    (o : Option Nat) (ho : ∀ v, o = some v → v ≤ 0x7FF) (R : Bytes) (st : σ) :
+    (o : Option Nat) (ho : ∀ v, o = some v → v ≤ 0x7FF) :
     ∃ A, optTlv (encH 2) o = .ok A ∧
-      run app (A ++ R) st = run app R (match o with | none => st | some v => app st 2 (.num v)) := by
+      ∀ (R : Bytes) (st : σ), run app (A ++ R) st = run app R (optSt o st (fun v => app st 2 (.num v))) := by
   cases o with
-  | none => exact ⟨[], rfl, rfl⟩
+  | none => exact ⟨[], rfl, fun _ _ => rfl⟩
   | some v =>
     have hv := ho v rfl
     refine ⟨[2, 2, v / 256, v % 256], ?_, ?_⟩
     · have c2 : ¬ (v > 65535) := by omega
       simp only [optTlv, encH, c2, if_false, Py.pure_eq]
-    · have := run_cons app [2, 2, v / 256, v % 256] R 2 2 _ st (pd_miux _ _ R) rfl
+    · intro R st
+      have := run_cons app [2, 2, v / 256, v % 256] R 2 2 _ st (pd_miux _ _ R) rfl
       rw [this]
       have : (v / 256 * 256 + v % 256) % 2048 = v := by omega
-      simp only [this]
+      simp only [this, optSt]
 
 theorem run_optWks {σ : Type} (app : σ → Nat → TlvV → σ)
-    (o : Option Nat) (ho : ∀ v, o = some v → v ≤ 0xFFFF) (R : Bytes) (st : σ) :
+    (o : Option Nat) (ho : ∀ v, o = some v → v ≤ 0xFFFF) :
     ∃ A, optTlv (encH 3) o = .ok A ∧
-      run app (A ++ R) st = run app R (match o with | none => st | some v => app st 3 (.num v)) := by
+      ∀ (R : Bytes) (st : σ), run app (A ++ R) st = run app R (optSt o st (fun v => app st 3 (.num v))) := by
   cases o with
-  | none => exact ⟨[], rfl, rfl⟩
+  | none => exact ⟨[], rfl, fun _ _ => rfl⟩
   | some v =>
     have hv := ho v rfl
     refine ⟨[3, 2, v / 256, v % 256], ?_, ?_⟩
     · have c2 : ¬ (v > 65535) := by omega
       simp only [optTlv, encH, c2, if_false, Py.pure_eq]
-    · have := run_cons app [3, 2, v / 256, v % 256] R 3 2 _ st (pd_wks _ _ R) rfl
+    · intro R st
+      have := run_cons app [3, 2, v / 256, v % 256] R 3 2 _ st (pd_wks _ _ R) rfl
       rw [this]
       have : v / 256 * 256 + v % 256 = v := by omega
-      simp only [this]
+      simp only [this, optSt]
 
-theorem run_sdreq (q : List (Nat × Bytes)) (hq : ∀ x ∈ q, x.1 ≤ 255 ∧ x.2.length ≤ 254) (R : Bytes) (st : SnlSt) :
+theorem run_sdreq (q : List (Nat × Bytes)) (hq : ∀ x ∈ q, x.1 ≤ 255 ∧ x.2.length ≤ 254) :
     ∃ A, encList encSdreq q = .ok A ∧
-      run snlApp (A ++ R) st = run snlApp R { st with sdreq := st.sdreq ++ q } := by
-  induction q generalizing st with
-  | nil => exact ⟨[], rfl, by simp⟩
+      ∀ (R : Bytes) (st : SnlSt), run snlApp (A ++ R) st = run snlApp R { st with sdreq := st.sdreq ++ q } := by
+  induction q with
+  | nil => exact ⟨[], rfl, fun _ _ => by simp⟩
   | cons x xs ih =>
     obtain ⟨tid, sn⟩ := x
     have hx := hq (tid, sn) (by simp)
-    obtain ⟨A, hA, hrun⟩ := ih (fun y hy => hq y (by simp [hy])) { st with sdreq := st.sdreq ++ [(tid, sn)] }
+    obtain ⟨A, hA, hrun⟩ := ih (fun y hy => hq y (by simp [hy]))
     refine ⟨[8, 1 + sn.length, tid] ++ sn ++ A, ?_, ?_⟩
     · have c1 : ¬ (sn.length > 254) := by simp at hx; omega
       have c2 : ¬ (tid > 255) := by simp at hx; omega
       simp only [encList, encSdreq, c1, c2, if_false, Py.pure_eq, Py.bind_ok, hA]
-    · have := run_cons snlApp ([8, 1 + sn.length, tid] ++ sn) (A ++ R) 8 (1 + sn.length) (.sdreq tid sn) st
+    · intro R st
+      have := run_cons snlApp ([8, 1 + sn.length, tid] ++ sn) (A ++ R) 8 (1 + sn.length) (.sdreq tid sn) st
         (by simpa using pd_sdreq tid sn (A ++ R)) (by simp; omega)
       have happ : snlApp st 8 (.sdreq tid sn) = { st with sdreq := st.sdreq ++ [(tid, sn)] } := rfl
       rw [List.append_assoc, this, happ, hrun]
       simp
 
-theorem run_sdres (q : List (Nat × Nat)) (hq : ∀ x ∈ q, x.1 ≤ 255 ∧ x.2 ≤ 255) (R : Bytes) (st : SnlSt) :
+theorem run_sdres (q : List (Nat × Nat)) (hq : ∀ x ∈ q, x.1 ≤ 255 ∧ x.2 ≤ 255) :
     ∃ A, encList encSdres q = .ok A ∧
-      run snlApp (A ++ R) st = run snlApp R { st with sdres := st.sdres ++ q } := by
-  induction q generalizing st with
-  | nil => exact ⟨[], rfl, by simp⟩
+      ∀ (R : Bytes) (st : SnlSt), run snlApp (A ++ R) st = run snlApp R { st with sdres := st.sdres ++ q } := by
+  induction q with
+  | nil => exact ⟨[], rfl, fun _ _ => by simp⟩
   | cons x xs ih =>
     obtain ⟨tid, sap⟩ := x
     have hx := hq (tid, sap) (by simp)
-    obtain ⟨A, hA, hrun⟩ := ih (fun y hy => hq y (by simp [hy])) { st with sdres := st.sdres ++ [(tid, sap)] }
+    obtain ⟨A, hA, hrun⟩ := ih (fun y hy => hq y (by simp [hy]))
     refine ⟨[9, 2, tid, sap] ++ A, ?_, ?_⟩
     · have c1 : ¬ (tid > 255 ∨ sap > 255) := by simp at hx; omega
       simp only [encList, encSdres, c1, if_false, Py.pure_eq, Py.bind_ok, hA]
-    · have := run_cons snlApp [9, 2, tid, sap] (A ++ R) 9 2 (.sdres tid sap) st (pd_sdres tid sap (A ++ R)) rfl
+    · intro R st
+      have := run_cons snlApp [9, 2, tid, sap] (A ++ R) 9 2 (.sdres tid sap) st (pd_sdres tid sap (A ++ R)) rfl
       have happ : snlApp st 9 (.sdres tid sap) = { st with sdres := st.sdres ++ [(tid, sap)] } := rfl
       rw [List.append_assoc, this, happ, hrun]
       simp
@@ -432,6 +448,267 @@ theorem run_sdres (q : List (Nat × Nat)) (hq : ∀ x ∈ q, x.1 ≤ 255 ∧ x.2
 theorem sliceN_hdr (t d s : Nat) (body : Bytes) :
     sliceN (hdr t d s ++ body) (0 + 2) (0 + (2 + body.length)) = body := by
   simp [sliceN, hdr]
+
+/-! ## round trip per PDU class -/
+
+/-- shape of every class proof: the encoding is `hdr t d s ++ body`, and the class decoder gives `p` back -/
+theorem nested_of_dec {t d s : Nat} {dec : Bytes → Nat → Nat → Py SPdu} {p : SPdu} (ht : t ≤ 15) (hd : d ≤ 63)
+    (hs : s ≤ 63) (hk : kindOf t = .simple dec) (body : Bytes)
+    (h : dec (hdr t d s ++ body) 0 (2 + body.length) = .ok p) :
+    decodeNested (hdr t d s ++ body) 0 (hdr t d s ++ body).length = .ok p := by
+  rw [decodeNested_hdr ht hd hs hk, hdr_len]
+  exact h
+
+theorem roundtripS (p : SPdu) (hv : ValidS p) :
+    ∃ b, encodeS p = .ok b ∧ decodeNested b 0 b.length = .ok p := by
+  cases p with
+  | symm d s =>
+    obtain ⟨rfl, rfl⟩ := hv
+    exact ⟨[0, 0], by decide, by decide⟩
+  | pax d s ver miux wks lto opt =>
+    obtain ⟨rfl, rfl, h1, h2, h3, h4, h5⟩ := hv
+    obtain ⟨A, hA, rA⟩ := run_optB paxApp 1 (Or.inl rfl) ver h1
+    obtain ⟨B, hB, rB⟩ := run_optMiux paxApp miux h2
+    obtain ⟨C, hC, rC⟩ := run_optWks paxApp wks h3
+    obtain ⟨D, hD, rD⟩ := run_optB paxApp 4 (Or.inr rfl) lto h4
+    obtain ⟨E, hE, rE⟩ := run_optOpt paxApp opt h5
+    have c : ¬ ((0 : Nat) ≠ 0 ∨ (0 : Nat) ≠ 0) := by decide
+    refine ⟨hdr 1 0 0 ++ (A ++ (B ++ (C ++ (D ++ (E ++ []))))), ?_, ?_⟩
+    · simp only [encodeS, if_neg c, encodeHeader_eq (by omega : 1 ≤ 15) (by omega : 0 ≤ 63) (by omega : 0 ≤ 63),
+        Py.bind_ok, hA, hB, hC, hD, hE, Py.pure_eq, List.append_assoc, List.append_nil]
+    · apply nested_of_dec (by omega) (by omega) (by omega) (rfl : kindOf 1 = .simple decPax)
+      simp only [decPax, decodeHeader_hdr (by omega : 1 ≤ 15) (by omega : 0 ≤ 63) (by omega : 0 ≤ 63), Py.bind_ok,
+        tlvLoop_hdr', if_neg c]
+      rw [rA, rB, rC, rD, rE, run_nil]
+      cases ver <;> cases miux <;> cases wks <;> cases lto <;> cases opt <;> rfl
+  | ui d s data =>
+    obtain ⟨hd, hs⟩ := hv
+    refine ⟨hdr 3 d s ++ data, by simp [encodeS, encodeHeader_eq (by omega : 3 ≤ 15) hd hs], ?_⟩
+    apply nested_of_dec (by omega) hd hs (rfl : kindOf 3 = .simple decUi)
+    simp only [decUi, decodeHeader_hdr (by omega : 3 ≤ 15) hd hs, Py.bind_ok, sliceN_hdr, Py.pure_eq]
+  | connect d s miu rw sn =>
+    obtain ⟨hd, hs, h1, h2, h3, h4⟩ := hv
+    have a1 : ∀ (st : ConnSt) x, connApp st 2 (.num x) = { st with miu := 128 + x } := fun _ _ => rfl
+    have a2 : ∀ (st : ConnSt) x, connApp st 5 (.num x) = { st with rw := x } := fun _ _ => rfl
+    obtain ⟨C, hC, rC⟩ := run_truthy connApp 6 (Or.inl rfl) sn h4
+    obtain ⟨B, hB, rB⟩ := run_rw a2 rw h3
+    obtain ⟨A, hA, rA⟩ := run_miux a1 miu h1 h2
+    simp only [Py.pure_eq] at hA hB
+    refine ⟨hdr 4 d s ++ (A ++ (B ++ (C ++ []))), ?_, ?_⟩
+    · simp only [encodeS, encodeHeader_eq (by omega : 4 ≤ 15) hd hs, Py.bind_ok, hA, hB, hC, Py.pure_eq,
+        List.append_assoc, List.append_nil]
+    · apply nested_of_dec (by omega) hd hs (rfl : kindOf 4 = .simple decConnect)
+      simp only [decConnect, decodeHeader_hdr (by omega : 4 ≤ 15) hd hs, Py.bind_ok, tlvLoop_hdr']
+      rw [rA _ _ rfl, rB _ _ rfl, rC, run_nil]
+      cases sn <;> rfl
+  | disc d s =>
+    obtain ⟨hd, hs⟩ := hv
+    refine ⟨hdr 5 d s ++ [], by simp [encodeS, encodeHeader_eq (by omega : 5 ≤ 15) hd hs], ?_⟩
+    apply nested_of_dec (by omega) hd hs (rfl : kindOf 5 = .simple decDisc)
+    simp only [decDisc, decodeHeader_hdr (by omega : 5 ≤ 15) hd hs, Py.bind_ok, Py.pure_eq]
+  | cc d s miu rw =>
+    obtain ⟨hd, hs, h1, h2, h3⟩ := hv
+    have a1 : ∀ (st : ConnSt) x, ccApp st 2 (.num x) = { st with miu := 128 + x } := fun _ _ => rfl
+    have a2 : ∀ (st : ConnSt) x, ccApp st 5 (.num x) = { st with rw := x } := fun _ _ => rfl
+    obtain ⟨B, hB, rB⟩ := run_rw a2 rw h3
+    obtain ⟨A, hA, rA⟩ := run_miux a1 miu h1 h2
+    simp only [Py.pure_eq] at hA hB
+    refine ⟨hdr 6 d s ++ (A ++ (B ++ [])), ?_, ?_⟩
+    · simp only [encodeS, encodeHeader_eq (by omega : 6 ≤ 15) hd hs, Py.bind_ok, hA, hB, Py.pure_eq,
+        List.append_assoc, List.append_nil]
+    · apply nested_of_dec (by omega) hd hs (rfl : kindOf 6 = .simple decCc)
+      simp only [decCc, decodeHeader_hdr (by omega : 6 ≤ 15) hd hs, Py.bind_ok, tlvLoop_hdr']
+      rw [rA _ _ rfl, rB _ _ rfl, run_nil]
+      rfl
+  | dm d s reason =>
+    obtain ⟨hd, hs, hr⟩ := hv
+    have c : ¬ (reason > 255) := by omega
+    refine ⟨hdr 7 d s ++ [reason], by simp [encodeS, encodeHeader_eq (by omega : 7 ≤ 15) hd hs, packB, c], ?_⟩
+    apply nested_of_dec (by omega) hd hs (rfl : kindOf 7 = .simple decDm)
+    have : unpackB (hdr 7 d s ++ [reason]) (0 + 2) = .ok reason := by simp [hdr, unpackB]
+    simp [decDm, decodeHeader_hdr (by omega : 7 ≤ 15) hd hs [reason] 1, this]
+  | frmr d s flags ptype ns nr vs vr vsa vra =>
+    obtain ⟨hd, hs, h1, h2, h3, h4, h5, h6, h7, h8⟩ := hv
+    have e0 : orShl flags 4 ptype = flags * 16 + ptype := by rw [orShl_eq _ _ _ (by omega)]
+    have e1 : orShl ns 4 nr = ns * 16 + nr := by rw [orShl_eq _ _ _ (by omega)]
+    have e2 : orShl vs 4 vr = vs * 16 + vr := by rw [orShl_eq _ _ _ (by omega)]
+    have e3 : orShl vsa 4 vra = vsa * 16 + vra := by rw [orShl_eq _ _ _ (by omega)]
+    have c : ¬ (flags * 16 + ptype > 255 ∨ ns * 16 + nr > 255 ∨ vs * 16 + vr > 255 ∨ vsa * 16 + vra > 255) := by
+      omega
+    refine ⟨hdr 8 d s ++ [flags * 16 + ptype, ns * 16 + nr, vs * 16 + vr, vsa * 16 + vra], ?_, ?_⟩
+    · simp only [encodeS, encodeHeader_eq (by omega : 8 ≤ 15) hd hs, Py.bind_ok, e0, e1, e2, e3, c, if_false,
+        Py.pure_eq]
+    · apply nested_of_dec (by omega) hd hs (rfl : kindOf 8 = .simple decFrmr)
+      have : unpackBBBB (hdr 8 d s ++ [flags * 16 + ptype, ns * 16 + nr, vs * 16 + vr, vsa * 16 + vra]) (0 + 2)
+          = .ok (flags * 16 + ptype, ns * 16 + nr, vs * 16 + vr, vsa * 16 + vra) := by simp [hdr, unpackBBBB]
+      have d0 : (flags * 16 + ptype) / 16 = flags := by omega
+      have d1 : (flags * 16 + ptype) % 16 = ptype := by omega
+      have d2 : (ns * 16 + nr) / 16 = ns := by omega
+      have d3 : (ns * 16 + nr) % 16 = nr := by omega
+      have d4 : (vs * 16 + vr) / 16 = vs := by omega
+      have d5 : (vs * 16 + vr) % 16 = vr := by omega
+      have d6 : (vsa * 16 + vra) / 16 = vsa := by omega
+      have d7 : (vsa * 16 + vra) % 16 = vra := by omega
+      simp [decFrmr, decodeHeader_hdr (by omega : 8 ≤ 15) hd hs _ 4, this, d0, d1, d2, d3, d4, d5, d6, d7]
+  | snl d s sdreq sdres =>
+    obtain ⟨rfl, rfl, h1, h2⟩ := hv
+    obtain ⟨B, hB, rB⟩ := run_sdres sdres h2
+    obtain ⟨A, hA, rA⟩ := run_sdreq sdreq h1
+    refine ⟨hdr 9 1 1 ++ (A ++ (B ++ [])), ?_, ?_⟩
+    · simp [encodeS, encodeHeader_eq (by omega : 9 ≤ 15) (by omega : 1 ≤ 63) (by omega : 1 ≤ 63), hA, hB]
+    · apply nested_of_dec (by omega) (by omega) (by omega) (rfl : kindOf 9 = .simple decSnl)
+      simp only [decSnl, decodeHeader_hdr (by omega : 9 ≤ 15) (by omega : 1 ≤ 63) (by omega : 1 ≤ 63), Py.bind_ok,
+        tlvLoop_hdr']
+      rw [rA, rB, run_nil]
+      simp
+  | dps d s ecpk rn =>
+    obtain ⟨rfl, rfl, h1, h2⟩ := hv
+    obtain ⟨B, hB, rB⟩ := run_truthy dpsApp 11 (Or.inr (Or.inr rfl)) rn h2
+    obtain ⟨A, hA, rA⟩ := run_truthy dpsApp 10 (Or.inr (Or.inl rfl)) ecpk h1
+    have c : ¬ ((0 : Nat) ≠ 0 ∨ (0 : Nat) ≠ 0) := by decide
+    refine ⟨hdr 10 0 0 ++ (A ++ (B ++ [])), ?_, ?_⟩
+    · simp only [encodeS, if_neg c, encodeHeader_eq (by omega : 10 ≤ 15) (by omega : 0 ≤ 63) (by omega : 0 ≤ 63),
+        Py.bind_ok, hA, hB, Py.pure_eq, List.append_assoc, List.append_nil]
+    · apply nested_of_dec (by omega) (by omega) (by omega) (rfl : kindOf 10 = .simple decDps)
+      simp only [decDps, decodeHeader_hdr (by omega : 10 ≤ 15) (by omega : 0 ≤ 63) (by omega : 0 ≤ 63), Py.bind_ok,
+        tlvLoop_hdr', if_neg c]
+      rw [rA, rB, run_nil]
+      cases ecpk <;> cases rn <;> rfl
+  | info d s ns nr data =>
+    obtain ⟨hd, hs, h1, h2⟩ := hv
+    refine ⟨hdr 12 d s ++ (ns * 16 + nr) :: data, ?_, ?_⟩
+    · simp [encodeS, encodeHeaderN_eq (by omega : 12 ≤ 15) hd hs h1 h2]
+    · apply nested_of_dec (by omega) hd hs (rfl : kindOf 12 = .simple decInfo)
+      have e : 2 + ((ns * 16 + nr) :: data).length = 3 + data.length := by simp; omega
+      have sl : sliceN (hdr 12 d s ++ (ns * 16 + nr) :: data) (0 + 3) (0 + (3 + data.length)) = data := by
+        simp [sliceN, hdr]
+      simp only [decInfo, e, decodeHeaderN_hdr (by omega : 12 ≤ 15) hd hs h1 h2, Py.bind_ok, sl, Py.pure_eq]
+  | rr d s nr =>
+    obtain ⟨hd, hs, h2⟩ := hv
+    refine ⟨hdr 13 d s ++ [0 * 16 + nr], ?_, ?_⟩
+    · simp [encodeS, encodeHeaderN_eq (by omega : 13 ≤ 15) hd hs (by omega : 0 ≤ 15) h2]
+    · apply nested_of_dec (by omega) hd hs (rfl : kindOf 13 = .simple decRr)
+      have e : 2 + [0 * 16 + nr].length = 3 + 0 := rfl
+      simp only [decRr, e, decodeHeaderN_hdr (by omega : 13 ≤ 15) hd hs (by omega : 0 ≤ 15) h2, Py.bind_ok, Py.pure_eq]
+  | rnr d s nr =>
+    obtain ⟨hd, hs, h2⟩ := hv
+    refine ⟨hdr 14 d s ++ [0 * 16 + nr], ?_, ?_⟩
+    · simp [encodeS, encodeHeaderN_eq (by omega : 14 ≤ 15) hd hs (by omega : 0 ≤ 15) h2]
+    · apply nested_of_dec (by omega) hd hs (rfl : kindOf 14 = .simple decRnr)
+      have e : 2 + [0 * 16 + nr].length = 3 + 0 := rfl
+      simp only [decRnr, e, decodeHeaderN_hdr (by omega : 14 ≤ 15) hd hs (by omega : 0 ≤ 15) h2, Py.bind_ok, Py.pure_eq]
+  | unknown t d s payload =>
+    obtain ⟨ht, hd, hs⟩ := hv
+    have ht' : t ≤ 15 := by omega
+    have hk : kindOf t = .simple decUnknown := by rcases ht with rfl | rfl <;> rfl
+    refine ⟨hdr t d s ++ payload, by simp [encodeS, encodeHeader_eq ht' hd hs], ?_⟩
+    apply nested_of_dec ht' hd hs hk
+    have i0 : idxN (hdr t d s ++ payload) 0 = .ok (d * 4 + t / 4) := by simp [hdr, idxN]
+    have i1 : idxN (hdr t d s ++ payload) (0 + 1) = .ok (t % 4 * 64 + s) := by simp [hdr, idxN]
+    have e : ((d * 4 + t / 4) * 4 + (t % 4 * 64 + s) / 64) % 16 = t := by omega
+    simp only [decUnknown, decodeHeader_hdr ht' hd hs, Py.bind_ok, i0, i1, e, sliceN_hdr, Py.pure_eq]
+
+/-! ## aggregates -/
+
+theorem agfLoop_done (fuel : Nat) (d : Bytes) (off : Nat) (acc : List SPdu) :
+    agfLoop fuel d off 0 acc = .ok acc := by
+  rw [agfLoop.eq_def]; simp
+
+theorem agfLoop_succ (fuel : Nat) (d : Bytes) (off size : Nat) (acc : List SPdu) (h : size ≠ 0) :
+    agfLoop (fuel + 1) d off size acc =
+      (structToDecode (unpackH d off) >>= fun n => decodeNested d (off + 2) n >>= fun p =>
+        agfLoop fuel d (off + 2 + n) (size - 2 - n) (acc ++ [p])) := by
+  rw [agfLoop.eq_def]; simp [h]
+
+theorem unpackH_shift (pre d : Bytes) (off : Nat) : unpackH (pre ++ d) (pre.length + off) = unpackH d off := by
+  unfold unpackH
+  rw [getElem?_shift, Nat.add_assoc, getElem?_shift]
+
+theorem decodeNested_shift (pre d : Bytes) (off n : Nat) :
+    decodeNested (pre ++ d) (pre.length + off) n = decodeNested d off n := by
+  unfold decodeNested decodePre
+  have c : (pre.length + off + n > (pre ++ d).length) ↔ (off + n > d.length) := by simp; omega
+  have sl : sliceN (pre ++ d) (pre.length + off) (pre.length + off + n) = sliceN d off (off + n) := by
+    have e1 : pre.length + off + n - (pre.length + off) = n := by omega
+    have e2 : off + n - off = n := by omega
+    simp only [sliceN, List.drop_append, List.drop_eq_nil_of_le (Nat.le_add_right _ _), Nat.add_sub_cancel_left,
+      List.nil_append, e1, e2]
+  simp only [c, sl]
+
+theorem agfLoop_shift (fuel : Nat) (pre d : Bytes) (off size : Nat) (acc : List SPdu) :
+    agfLoop fuel (pre ++ d) (pre.length + off) size acc = agfLoop fuel d off size acc := by
+  induction fuel generalizing off size acc with
+  | zero =>
+    by_cases hs : size = 0
+    · subst hs; rw [agfLoop_done, agfLoop_done]
+    · rw [agfLoop.eq_def, agfLoop.eq_def 0 d]
+  | succ k ih =>
+    by_cases hs : size = 0
+    · subst hs; rw [agfLoop_done, agfLoop_done]
+    · rw [agfLoop_succ _ _ _ _ _ hs, agfLoop_succ _ _ _ _ _ hs, unpackH_shift]
+      congr 1
+      funext n
+      have e1 : pre.length + off + 2 = pre.length + (off + 2) := by omega
+      rw [e1, decodeNested_shift]
+      congr 1
+      funext p
+      have e2 : pre.length + (off + 2) + n = pre.length + (off + 2 + n) := by omega
+      rw [e2]
+      exact ih _ _ _
+
+theorem agf_items (items : List SPdu) (hv : ∀ p ∈ items, ValidS p ∧ lenS p ≤ 65535) :
+    ∃ es body, encodeAll items = .ok es ∧ agfJoin es = .ok body ∧
+      ∀ (fuel : Nat) (acc : List SPdu), body.length ≤ fuel →
+        agfLoop fuel body 0 body.length acc = .ok (acc ++ items) := by
+  induction items with
+  | nil => exact ⟨[], [], rfl, rfl, fun fuel acc _ => by simp [agfLoop_done]⟩
+  | cons p ps ih =>
+    obtain ⟨hp, hpl⟩ := hv p (by simp)
+    obtain ⟨es, body, h1, h2, h3⟩ := ih (fun q hq => hv q (by simp [hq]))
+    obtain ⟨e, he, hdec⟩ := roundtripS p hp
+    have hlen : e.length ≤ 65535 := by rw [← lenS_eq he]; exact hpl
+    have c : ¬ (e.length > 65535) := by omega
+    refine ⟨e :: es, [e.length / 256, e.length % 256] ++ e ++ body, ?_, ?_, ?_⟩
+    · simp only [encodeAll, he, h1, Py.bind_ok, Py.pure_eq]
+    · simp only [agfJoin, c, if_false, h2, Py.bind_ok, Py.pure_eq]
+    · intro fuel acc hf
+      have hl : ([e.length / 256, e.length % 256] ++ e ++ body).length = e.length + body.length + 2 := by
+        simp
+      obtain ⟨k, rfl⟩ : ∃ k, fuel = k + 1 := ⟨fuel - 1, by omega⟩
+      rw [agfLoop_succ _ _ _ _ _ (by omega)]
+      have hu : unpackH ([e.length / 256, e.length % 256] ++ e ++ body) 0 = .ok e.length := by
+        have : e.length / 256 * 256 + e.length % 256 = e.length := by omega
+        simp [unpackH, this]
+      have hn : decodeNested ([e.length / 256, e.length % 256] ++ e ++ body) (0 + 2) e.length = .ok p := by
+        have := decodeNested_local [e.length / 256, e.length % 256] e body
+        simp only [List.length_cons, List.length_nil] at this
+        rw [show 0 + 2 = 0 + 1 + 1 from rfl, this, hdec]
+      simp only [hu, structToDecode, wrapExc, Py.bind_ok, hn]
+      have e3 : 0 + 2 + e.length = ([e.length / 256, e.length % 256] ++ e).length + 0 := by simp; omega
+      have e4 : ([e.length / 256, e.length % 256] ++ e ++ body).length - 2 - e.length = body.length := by omega
+      rw [e3, e4, agfLoop_shift, h3 k (acc ++ [p]) (by omega)]
+      simp
+
+theorem roundtrip (p : Pdu) (hv : Valid p) : ∃ b, encode p = .ok b ∧ decode b = .ok p := by
+  cases p with
+  | simple p =>
+    obtain ⟨b, he, hd⟩ := roundtripS p hv
+    exact ⟨b, he, decodeAt_of_nested hd⟩
+  | agf d s items =>
+    obtain ⟨rfl, rfl, hitems⟩ := hv
+    obtain ⟨es, body, h1, h2, h3⟩ := agf_items items hitems
+    have c : ¬ ((0 : Nat) ≠ 0 ∨ (0 : Nat) ≠ 0) := by decide
+    refine ⟨hdr 2 0 0 ++ body, ?_, ?_⟩
+    · simp only [encode, if_neg c, encodeHeader_eq (by omega : 2 ≤ 15) (by omega : 0 ≤ 63) (by omega : 0 ≤ 63),
+        Py.bind_ok, h1, h2, Py.pure_eq]
+    · unfold decode decodeAt
+      rw [decodePre_hdr (by omega) (by omega) (by omega)]
+      simp only [Py.bind_ok, show kindOf 2 = Kind.agf from rfl, hdr_len, decAgf,
+        decodeHeader_hdr (by omega : 2 ≤ 15) (by omega : 0 ≤ 63) (by omega : 0 ≤ 63), if_neg c]
+      have e1 : 2 + body.length - 2 = body.length := by omega
+      have e2 : 0 + 2 = (hdr 2 0 0).length + 0 := rfl
+      rw [e1, e2, agfLoop_shift, h3 body.length [] (Nat.le_refl _)]
+      simp
 
 end Impl
 end NfcVerif.Pdu
